@@ -68,7 +68,7 @@ class GuardMap:
     def __init__(self, fn: ast.AST):
         self.fn = fn
         self.conds: Dict[int, List[Cond]] = {}
-        self.early: Set[int] = set()   # ids of tests that are in a path condition because an earlier branch always exits
+        self.early: Set[Tuple[int, bool]] = set()   # ids of tests that are in a path condition because an earlier branch always exits
         self.loops: Dict[int, List[ast.stmt]] = {}
         self.stmt_of: Dict[int, ast.stmt] = {}
         body = fn.body if hasattr(fn, "body") and isinstance(fn.body, list) else [fn]
@@ -85,10 +85,10 @@ class GuardMap:
                 a, b = always_abrupt(st.body), always_abrupt(st.orelse)
                 if a and not b:
                     conds.append((st.test, False))
-                    self.early.add(id(st.test))
+                    self.early.add((id(st.test), False))
                 elif b and not a:
                     conds.append((st.test, True))
-                    self.early.add(id(st.test))
+                    self.early.add((id(st.test), True))
             elif isinstance(st, (ast.For, ast.AsyncFor)):
                 self._block(st.body, conds, loops + [st])
                 self._block(st.orelse, conds, loops)
@@ -147,7 +147,7 @@ class GuardMap:
     def formula(self, node: ast.AST, env: Optional[G.GuardEnv] = None, skip_early: bool = False):
         """path condition; skip_early drops conjuncts that only say 'an earlier branch did not exit'"""
         return G.And(*[(G.formula(t, env) if pol else G.Not(G.formula(t, env))) for t, pol in self.of(node)
-                       if not (skip_early and id(t) in self.early)])
+                       if not (skip_early and (id(t), pol) in self.early)])
 
     def in_loop(self, node: ast.AST) -> List[ast.stmt]:
         return self.loops[id(self.stmt(node))]
